@@ -189,6 +189,17 @@ CHECKS["C16"] = dict(
    note="Trusted: Coq kernel; Z3's core is an unsat subset of the tracked assertions. Mostly testing. Two defects repaired (nested list in the "
         "cached core; empty core when unsatisfiability was known only from a cache).")
 
+CHECKS["C17"] = dict(
+   text="Machine-checked proof (Coq) over Model/Z3Stack.v: for every number of requested values, every sequence of check outcomes and every "
+        "position at which a check gives up, BackendZ3._batch_eval leaves the assertion stack of the Z3 solver exactly as it found it "
+        "(C17_batch_eval_restores); the pinned code left its frame with the blocking constraints behind (C17_pinned_refuted -- repaired). "
+        "Tie: real _batch_eval runs on real Z3 solvers with give-ups injected, scopes/assertions compared with the extracted model. The "
+        "frontends' caches (sat flag, models, exhaustion marks, expansion constraints) are NOT modelled: z3_solver_sat is wrapped at run time so "
+        "that the k-th check of an operation gives up, the operation must raise a claripy error, and every later answer of the solver and its "
+        "branches is compared with enumeration (testing).",
+   design="5/C17", technique="Coq proof of the push/pop discipline under every failure position; run-time fault injection into histories",
+   note="Trusted: Coq kernel; Model/Z3Stack.v hand-written; give-ups are injected as ClaripySolverInterruptError. One defect repaired.")
+
 REASONS = {}
 DEFAULT_REASON = "not claimed yet: its Coq model and correspondence harness are not built in this snapshot (see DESIGN.md section 10 for the order); no other technique is substituted"
 
